@@ -56,14 +56,22 @@ Proof.
   eexists. repeat split; vm_compute; reflexivity.
 Qed.
 
-(* Python, a generic type alias: a subscript assignment instead of an alias declaration *)
-Lemma python_generic_alias_refuted :
-  exists cfg pd text, dom_C10 CPY pd = true /\ known_C10 CPY [] pd = ["C10-python-generic-alias"%string] /\
-    py_generate uc_exec cfg pd = Ok text /\ contains_sub (lit "Al[T] = List[T]") text = true.
-Proof.
-  exists w_py_cfg, (w_pd [] [] [w_alias]).
-  eexists. repeat split; vm_compute; reflexivity.
-Qed.
+(* Python, a generic type alias.  The class C10-python-generic-alias (`Al[T] = List[T]`: a subscript assignment
+   to a name that is never bound, T not declared) is FIXED in /repo; regression pin: the former witness
+   `type Al<T> = Vec<T>` is in no finding class and gives exactly this file - T declared as a TypeVar, the alias a
+   plain assignment - which is lexically good *)
+Definition w_py_alias_text : str :=
+  lit "from __future__ import annotations" ++ [10; 10] ++
+  lit "from typing import List, TypeVar" ++ [10; 10] ++
+  lit "T = TypeVar(""T"")" ++ [10; 10; 10] ++
+  lit "Al = List[T]" ++ [10; 10].
+Lemma python_generic_alias_fixed :
+  dom_C10 CPY (w_pd [] [] [w_alias]) = true /\ known_C10 CPY [] (w_pd [] [] [w_alias]) = [] /\
+  py_generate uc_exec w_py_cfg (w_pd [] [] [w_alias]) = Ok w_py_alias_text /\
+  contains_sub (lit "Al = List[T]") w_py_alias_text = true /\ contains_sub (lit "Al[T]") w_py_alias_text = false /\
+  contains_sub (lit "T = TypeVar(""T"")") w_py_alias_text = true /\
+  good_C10_lex CPY w_py_alias_text = true.
+Proof. repeat split; vm_compute; reflexivity. Qed.
 
 (* Python, an alias applying type arguments to a generic enum: the Union the enum's name is bound to is not generic *)
 Lemma python_generic_enum_arg_refuted :
